@@ -98,6 +98,11 @@ pub enum Op {
     /// `largest_center_to_vertex_distances_with_radius(from, to, ..)`: first-touches the constants
     /// of every depth in `from.max(1)..to` (second table only).
     W { from: u8, to: u8, lon: f64, lat: f64, r: f64 },
+    /// `n` successive `largest_center_to_vertex_distance(d, ..)` calls at slightly different
+    /// positions (a long history of look-ups of the second table by one thread).
+    Vx { d: u8, n: u16, lon: f64, lat: f64 },
+    /// `n` successive `nested::hash(d, ..)` calls (a long history of look-ups of the first table).
+    Hx { d: u8, n: u16, lon: f64, lat: f64 },
     /// crashing caller: `nested::hash(d, lon, 2.0)` -> must panic on the latitude check.
     Zh { d: u8, lon: f64 },
     /// crashing caller: `nested::center(d, n_hash(d))` -> must panic on the hash check.
@@ -110,6 +115,7 @@ impl Op {
     /// Depth explicitly requested by the op (the one whose layer / constants MUST exist after it).
     pub fn depth(&self) -> u8 {
         match self {
+            Op::Vx { d, .. } | Op::Hx { d, .. } => *d,
             Op::L { d } | Op::H { d, .. } | Op::G { d, .. } | Op::N { d, .. } | Op::K { d, .. }
             | Op::E { d, .. } | Op::P { d, .. } | Op::X { d, .. } | Op::B { d, .. } | Op::R { d, .. }
             | Op::V { d, .. } | Op::Zh { d, .. } | Op::Zc { d } => *d,
@@ -127,7 +133,7 @@ impl Op {
     /// bit 0 = LAYERS, bit 1 = CSTS_C2V.
     pub fn tables(&self) -> u8 {
         match self {
-            Op::V { .. } | Op::W { .. } => 2,
+            Op::V { .. } | Op::W { .. } | Op::Vx { .. } => 2,
             Op::K { .. } | Op::Kc { .. } | Op::E { .. } | Op::Ec { .. } => 3,
             _ => 1,
         }
@@ -137,12 +143,12 @@ impl Op {
             Op::L { .. } => "L", Op::H { .. } => "H", Op::G { .. } => "G", Op::N { .. } => "N",
             Op::K { .. } => "K", Op::Kc { .. } => "Kc", Op::E { .. } => "E", Op::P { .. } => "P",
             Op::X { .. } => "X", Op::B { .. } => "B", Op::R { .. } => "R", Op::V { .. } => "V",
-            Op::Zh { .. } => "Zh", Op::Zc { .. } => "Zc", Op::Zd { .. } => "Zd", Op::Ec { .. } => "Ec", Op::W { .. } => "W",
+            Op::Zh { .. } => "Zh", Op::Zc { .. } => "Zc", Op::Zd { .. } => "Zd", Op::Ec { .. } => "Ec", Op::W { .. } => "W", Op::Vx { .. } => "Vx", Op::Hx { .. } => "Hx",
         }
     }
 }
 
-pub const OP_KINDS: [&str; 17] = ["L", "H", "G", "N", "K", "Kc", "E", "P", "X", "B", "R", "V", "Zh", "Zc", "Zd", "Ec", "W"];
+pub const OP_KINDS: [&str; 19] = ["L", "H", "G", "N", "K", "Kc", "E", "P", "X", "B", "R", "V", "Zh", "Zc", "Zd", "Ec", "W", "Vx", "Hx"];
 /// Kinds the swarm generator draws ordinary (non-crashing) ops from.
 pub const ORDINARY_KINDS: [usize; 14] = [0, 1, 2, 3, 4, 5, 6, 7, 8, 9, 10, 11, 15, 16];
 
@@ -240,6 +246,8 @@ pub fn encode_op(op: &Op) -> String {
         Op::Zd { lon } => format!("Zd,{}", f(*lon)),
         Op::Ec { d, dd, lon, lat, a, b, pa } => format!("Ec,{},{},{},{},{},{},{}", d, dd, f(*lon), f(*lat), f(*a), f(*b), f(*pa)),
         Op::W { from, to, lon, lat, r } => format!("W,{},{},{},{},{}", from, to, f(*lon), f(*lat), f(*r)),
+        Op::Vx { d, n, lon, lat } => format!("Vx,{},{},{},{}", d, n, f(*lon), f(*lat)),
+        Op::Hx { d, n, lon, lat } => format!("Hx,{},{},{},{}", d, n, f(*lon), f(*lat)),
     }
 }
 
@@ -278,6 +286,8 @@ pub fn decode_op(s: &str) -> Result<Op, String> {
             if !(from < to && to <= 30) { return Err(format!("op '{}': bad depth range", s)); }
             Op::W { from, to, lon: pf(p[3])?, lat: pf(p[4])?, r: pf(p[5])? }
         }
+        "Vx" => { need(5)?; Op::Vx { d: pu(p[1])?, n: pu(p[2])?, lon: pf(p[3])?, lat: pf(p[4])? } }
+        "Hx" => { need(5)?; Op::Hx { d: pu(p[1])?, n: pu(p[2])?, lon: pf(p[3])?, lat: pf(p[4])? } }
         k => return Err(format!("unknown op kind '{}'", k)),
     };
     if op.depth() > 29 { return Err(format!("op '{}': depth > 29", s)); }
@@ -379,6 +389,8 @@ pub fn describe_op(op: &Op) -> String {
         Op::Zd { lon } => format!("CRASH hash(depth=30,{:.6},0.5)", lon),
         Op::Ec { d, dd, lon, lat, a, b, pa } => format!("elliptical_cone_coverage_custom({},{},{:.6},{:.6},{:.3e},{:.3e},{:.4})", d, dd, lon, lat, a, b, pa),
         Op::W { from, to, lon, lat, r } => format!("largest_center_to_vertex_distances_with_radius({}..{},{:.6},{:.6},{:.3e})", from, to, lon, lat, r),
+        Op::Vx { d, n, lon, lat } => format!("{} x largest_center_to_vertex_distance({},{:.6}+i*1e-3,{:.6})", n, d, lon, lat),
+        Op::Hx { d, n, lon, lat } => format!("{} x hash({},{:.6}+i*1e-3,{:.6})", n, d, lon, lat),
     }
 }
 
@@ -414,6 +426,10 @@ pub enum Profile {
     /// values (different positions): repeated identical parameters next to different ones, which
     /// is what per-layer / per-process memos keyed by radius or delta_depth need to go wrong.
     Xmatch,
+    /// Long histories: one thread performs several hundred look-ups of one depth (more than 256,
+    /// more than 512) and then uses a second depth that another thread first-uses meanwhile.
+    /// Catches defects that only appear when a counter wraps / a periodic refresh happens.
+    Long,
 }
 
 pub fn n_hash(d: u8) -> u64 {
@@ -706,6 +722,39 @@ fn generate_xmatch(seed: u64) -> Scenario {
     Scenario { threads, faults: Vec::new() }
 }
 
+/// Long-history scenarios (see [`Profile::Long`]).
+fn generate_long(seed: u64) -> Scenario {
+    let mut rng = Rng::new(seed);
+    let d1 = rng.range(1, 29) as u8;
+    let mut d2 = rng.range(1, 29) as u8;
+    if d2 == d1 { d2 = if d1 < 29 { d1 + 1 } else { d1 - 1 }; }
+    let n_threads = rng.range(2, 3) as usize;
+    let mut threads = Vec::with_capacity(n_threads);
+    for ti in 0..n_threads {
+        let (lon, lat) = gen_pos(&mut rng);
+        let lat = lat.max(-1.5).min(1.5);
+        let mut ops = Vec::new();
+        if ti == 0 {
+            // the busy thread: a long run on d1, then d2 (first-used by somebody else meanwhile)
+            let n = rng.range(260, 600) as u16;
+            ops.push(if rng.chance(2, 3) { Op::Vx { d: d1, n, lon, lat } } else { Op::Hx { d: d1, n, lon, lat } });
+            ops.push(if rng.chance(1, 2) { Op::V { d: d2, lon, lat, r: None } } else { Op::L { d: d2 } });
+            if rng.chance(1, 2) {
+                ops.push(Op::V { d: d2, lon, lat, r: Some(cell_size(d2)) });
+            }
+        } else {
+            // the others first-use d2 (both tables), some of them late
+            ops.push(if rng.chance(1, 2) { Op::V { d: d2, lon, lat, r: None } } else { Op::H { d: d2, lon, lat } });
+            if rng.chance(1, 2) {
+                ops.push(Op::V { d: d2, lon, lat, r: Some(cell_size(d2)) });
+            }
+        }
+        let late = ti > 0 && rng.chance(1, 3);
+        threads.push(ThreadSpec { start: if late { Start::Late } else { Start::Line }, ops });
+    }
+    Scenario { threads, faults: Vec::new() }
+}
+
 /// Range-centred scenarios (see [`Profile::Ranges`]).
 fn generate_ranges(seed: u64) -> Scenario {
     let mut rng = Rng::new(seed);
@@ -802,12 +851,15 @@ pub fn generate(seed: u64, profile: Profile) -> Scenario {
     if profile == Profile::Xmatch {
         return generate_xmatch(seed);
     }
+    if profile == Profile::Long {
+        return generate_long(seed);
+    }
     let mut rng = Rng::new(seed);
     let (max_threads, max_ops, light) = match profile {
         Profile::Full => (6u64, 4u64, false),
         Profile::Light => (5, 2, true),
         Profile::Tiny => (4, 1, true),
-        Profile::Cover | Profile::Crash | Profile::Ranges | Profile::Pairs | Profile::Xmatch => unreachable!(),
+        Profile::Cover | Profile::Crash | Profile::Ranges | Profile::Pairs | Profile::Xmatch | Profile::Long => unreachable!(),
     };
     // thread count: biased to small
     let n_threads = match rng.below(10) {
@@ -914,7 +966,7 @@ mod tests {
     use super::*;
     #[test]
     fn roundtrip() {
-        for p in [Profile::Full, Profile::Light, Profile::Tiny, Profile::Cover, Profile::Crash, Profile::Ranges, Profile::Pairs, Profile::Xmatch] {
+        for p in [Profile::Full, Profile::Light, Profile::Tiny, Profile::Cover, Profile::Crash, Profile::Ranges, Profile::Pairs, Profile::Xmatch, Profile::Long] {
             for s in 0..2000u64 {
                 let sc = generate(derive_seed(1, 2, s), p);
                 let txt = encode(&sc);
